@@ -71,7 +71,7 @@ pub fn property(id: &str) -> Option<PropertyRun> {
         },
         "C11" => PropertyRun {
             id: id.into(),
-            parts: vec![Box::new(Campaign(c11::Analyses))],
+            parts: vec![Box::new(Campaign(c11::Analyses)), Box::new(Campaign(c11::Enforcement))],
             assumptions: vec!["regularity follows res/manual/src/analyze.md; unary minus is read as subtraction from 0".into()],
         },
         "C14" => PropertyRun {
